@@ -53,6 +53,9 @@ type JPEGOpts struct {
 	XMP  [][]byte // XMP packets to embed as APP1 XMP segments (each <= 65502 bytes)
 	Max  int      // max other segments
 	Tail int      // bytes of entropy-coded data after SOS (>= 64)
+	// BigSeg > 0 adds one ignored segment (APPn or COM) whose length field is 0x10000-BigSeg:
+	// the largest legal segments (BigSeg 1 = 0xFFFF).
+	BigSeg int
 }
 
 // DrawJPEG draws SOI, S1..Sn, DQT/DHT.., SOS + data, EOI and keeps the segment table.
@@ -91,6 +94,9 @@ func DrawJPEG(l *core.Lane, o JPEGOpts) *JPEG {
 	for i := 0; i < nOther; i++ {
 		items = append(items, item{"other", nil})
 	}
+	if o.BigSeg > 0 {
+		items = append(items, item{"big", nil})
+	}
 	// order: 0 = metadata first in given order then others; else shuffled
 	if l.Bool() {
 		for i := len(items) - 1; i > 0; i-- {
@@ -106,6 +112,17 @@ func DrawJPEG(l *core.Lane, o JPEGOpts) *JPEG {
 		case "xmp":
 			p := append([]byte(xmpURI), it.data...)
 			put(Segment{Marker: 0xe1, Kind: "xmp", Payload: p, Data: it.data})
+		case "big":
+			n := 0x10000 - o.BigSeg - 2
+			f := l.Sub()
+			p := f.Bytes(n)
+			// look-alike metadata and a nested SOI + DQT inside the payload
+			copy(p[100:], []byte{0xff, 0xe1, 0x00, 0x10, 'E', 'x', 'i', 'f', 0, 0, 'I', 'I', 0x2b, 0, 8, 0, 0, 0, 0xff, 0xd8, 0xff, 0xdb, 0x00, 0x04, 1, 2, 0xff, 0xd9})
+			m := byte(0xfe)
+			if l.Bool() {
+				m = byte(0xe2 + l.Intn(14))
+			}
+			put(Segment{Marker: m, Kind: "appn", Payload: ScreenTIFF(p)})
 		default:
 			switch l.Intn(12) {
 			case 0: // APP0 JFIF
